@@ -35,6 +35,17 @@ Theorem C17_every_registered_type : forall c m input,
 Proof. exact every_registered_type_total. Qed.
 Print Assumptions C17_every_registered_type.
 
+(* with the memory outcome excluded: for a registered type, as soon as the budget covers what the
+   DECLARED frame size allows (2 * 217 * size bytes: C20's bound), a cut response is an error —
+   in particular every strict prefix of a well-formed frame *)
+Theorem C17_transport_cut_is_error : forall c m input,
+  In m schemas -> bytes_ok input -> (4 <= length input)%nat ->
+  (Z.of_nat (length input) < 4 + get_bes 4 (firstn 4 input))%Z ->
+  (2 * KMAX * Z.max 0 (get_bes 4 (firstn 4 input)) <= Z.of_N (budget c))%Z ->
+  exists e ra al, read_response c m.(ms_flex) m.(ms_ty) input = Err e ra al.
+Proof. exact registered_cut_is_error. Qed.
+Print Assumptions C17_transport_cut_is_error.
+
 Example C17_example :
   (* metadata-like response cut after 9 of its 16 bytes *)
   read_response {| budget := 1000 |} false (TStruct [TInt 4; TString false] [])
